@@ -545,6 +545,9 @@ POOL = [
     CSE(("Sum", T(X, C(1))), "p"),
     ("Sum", T(CSE(("Sum", T(X, C(2)))), CSE(("Sum", T(X, C(2)))))),
     ("Sum", T(CSE(("Sum", T(Z, C(5)))), CSE(("Product", T(Y, C(2))), "p"))),
+    # a prefix that looks like the numbered name of another prefix's second wrapper
+    ("Sum", T(CSE(("Product", T(Y, C(2))), "p"), CSE(("Product", T(X, C(3))), "p"),
+              CSE(("Product", T(Z, C(4))), "p_2"), CSE(("Sum", T(Z, C(6))), "p_1"))),
 ]
 # expressions CCodeMapper cannot render (a None leaf): the call must fail every time and leave the
 # mapper's tables consistent
